@@ -580,7 +580,7 @@ Proof.
   apply orb_false_iff in H; destruct H as [K16 H]. apply orb_false_iff in H; destruct H as [K21 H].
   apply orb_false_iff in H; destruct H as [K22 _].
   assert (K7b : k7_over8 (xbase d) = false) by (unfold xk7_over8 in K7; now apply orb_false_iff in K7).
-  repeat split; try assumption. unfold known, known_table. cbn [existsb snd]. now rewrite K6, K7b, K8, K9.
+  repeat split; try assumption. unfold known, known_table. cbn [existsb snd]. unfold g2_required_breaks in K22. now rewrite K6, K7b, K8, K9, K22.
 Qed.
 Lemma lifted_agree d : known (xbase d) = false -> forall c f, In (c, f) (lift jobs_checks ++ lift vehicles_checks) -> f d = Some (xviolates c d).
 Proof.
